@@ -80,6 +80,7 @@ type BinEnv struct {
 	Clock      *time.Time
 	NoColor    bool
 	Stdin      []byte
+	StdoutPath string // if set, the process's standard output is this file (e.g. /dev/full) instead of a pipe
 	ExtraEnv   []string
 	WorkingDir string
 }
@@ -106,6 +107,12 @@ func RunBin(env BinEnv, args ...string) BinResult {
 	cmd.Dir = env.WorkingDir
 	var so, se bytes.Buffer
 	cmd.Stdout, cmd.Stderr = &so, &se
+	if env.StdoutPath != "" {
+		if f, err := os.OpenFile(env.StdoutPath, os.O_WRONLY, 0); err == nil {
+			defer f.Close()
+			cmd.Stdout = f
+		}
+	}
 	if env.Stdin != nil {
 		cmd.Stdin = bytes.NewReader(env.Stdin)
 	}
